@@ -252,35 +252,37 @@ def gen_fermion_jobs(chk, jobs, meta, rng):
                         # the dictionary is deliberately built in REVERSED term order: times are looked up by key
                         time = {t: float(tms[t]) for t in reversed(list(tms))}
                     mo = dict(opts, qubit_mapping=mapping)
-                    info = {"mapping": mapping, "fterms": fterms, "steps": steps, "order": order, "time": tmode}
-                    try:
-                        circ, phase = trotterize(fop, time=time, n_trotter_steps=steps, trotter_order=order,
-                                                 mapping_options=mo, return_phase=True)
-                        # the property-level expectation: encode (coefficient * time) per term, then product formula
-                        scaled = FermionOperator()
-                        for t, k in fterms:
-                            scaled += FermionOperator(t, k_to_angle(k, M) * tms[t])
-                        qop = fermion_to_qubit_mapping(scaled, mapping, n_spinorbitals=opts.get("n_spinorbitals"))
-                        n = max(circ.width, 1 + max([q for t in qop.terms for q, _ in t] + [0]))
-                        terms = []
-                        for t, c in qop.terms.items():
-                            if abs(c.imag) > 1e-12:
-                                raise OffGrid("complex coefficient")
-                            k = angle_to_k(c.real, M)
-                            if k is None:
-                                raise OffGrid("coef")
-                            terms.append((t, k))
-                        fac = expected_factors(terms, n, [1] * len(terms), order, steps)
-                        if fac is None:
-                            raise OffGrid("divisibility")
-                        ph = phase_index(complex(phase))
-                        if ph is None:
-                            raise OffGrid("phase")
-                        mk_job(jobs, meta, "trotterize-fermion", n, gates_to_json(list(circ), M), fac, [], ph=ph, info=info)
-                    except OffGrid:
-                        chk.inconclusive += 1
-                    except Exception as e:
-                        chk.violation("trotterize-fermion:exception", "%s: %s" % (type(e).__name__, e), info)
+                    nso = opts.get("n_spinorbitals") or (1 + max(p for t, _ in fterms for p, _ in t))
+                    for carg, cspec in [(None, []), (nso, [nso]), ([nso + 1, nso], [nso + 1, nso])]:
+                        info = {"mapping": mapping, "fterms": fterms, "steps": steps, "order": order, "time": tmode, "control": carg}
+                        try:
+                            circ, phase = trotterize(fop, time=time, n_trotter_steps=steps, trotter_order=order,
+                                                     mapping_options=mo, control=carg, return_phase=True)
+                            # the property-level expectation: encode (coefficient * time) per term, then product formula
+                            scaled = FermionOperator()
+                            for t, k in fterms:
+                                scaled += FermionOperator(t, k_to_angle(k, M) * tms[t])
+                            qop = fermion_to_qubit_mapping(scaled, mapping, n_spinorbitals=opts.get("n_spinorbitals"))
+                            n = max([circ.width, 1 + max([q for t in qop.terms for q, _ in t] + [0])] + [c + 1 for c in cspec])
+                            terms = []
+                            for t, c in qop.terms.items():
+                                if abs(c.imag) > 1e-12:
+                                    raise OffGrid("complex coefficient")
+                                k = angle_to_k(c.real, M)
+                                if k is None:
+                                    raise OffGrid("coef")
+                                terms.append((t, k))
+                            fac = expected_factors(terms, n, [1] * len(terms), order, steps)
+                            if fac is None:
+                                raise OffGrid("divisibility")
+                            ph = phase_index(complex(phase))
+                            if ph is None:
+                                raise OffGrid("phase")
+                            mk_job(jobs, meta, "trotterize-fermion", n, gates_to_json(list(circ), M), fac, cspec, ph=ph, info=info)
+                        except OffGrid:
+                            chk.inconclusive += 1
+                        except Exception as e:
+                            chk.violation("trotterize-fermion:exception", "%s: %s" % (type(e).__name__, e), info)
 
 
 def negative_controls(jobs):
@@ -365,6 +367,30 @@ def small_angle_tail(chk):
             if err > 1e-9:
                 chk.violation("numeric-tail:trotterize:small-step", "NUMERIC TAIL: commuting terms, t=%g in %d steps (order %d): |U - exp(-itH)| = %.3g"
                               % (t_tot, steps, order, err), {"kind": "small-step", "terms": terms, "t": t_tot, "steps": steps, "order": order})
+    # higher even orders (irrational Suzuki coefficients: outside the exact carrier): observed convergence rate.
+    # A p-th order formula has one-step error ~ t^(p+1): halving t must divide the error by about 2^(p+1).
+    nc_terms = [(((0, "X"),), 0.7), (((0, "Z"), (1, "Z")), 0.9), (((1, "Y"),), -0.6), (((0, "Y"), (1, "X")), 0.4)]
+    op = QubitOperator()
+    H = np.zeros((4, 4), dtype=complex)
+    for t, c in nc_terms:
+        op += QubitOperator(t, c)
+        H += c * word_matrix(t, 2)
+    w, v = np.linalg.eigh(H)
+    rates = {}
+    for order in (2, 4, 6):
+        errs = []
+        for t_tot in (0.4, 0.2):
+            U = unitary(trotterize(op, time=t_tot, n_trotter_steps=1, trotter_order=order), 2)
+            E = (v * np.exp(-1j * t_tot * w)) @ v.conj().T
+            errs.append(float(np.linalg.norm(U - E, 2)))
+        rate = float(np.log2(errs[0] / errs[1])) if errs[1] > 0 else 99.0
+        rates[order] = round(rate, 2)
+        n_cases += 1
+        if rate < order + 0.5:
+            chk.violation("numeric-tail:trotterize:convergence-order", "NUMERIC TAIL: trotter_order=%d converges with rate %.2f (error %.3g -> %.3g when t is "
+                          "halved); a formula of that order has rate %d" % (order, rate, errs[0], errs[1], order + 1),
+                          {"kind": "convergence", "order": order, "errors": errs})
+    chk.part("numeric_tail_convergence_rates_NOT_model_checked", observed_log2_error_ratio=rates)
     chk.part("numeric_tail_small_angles_NOT_model_checked", cases=n_cases, worst_error=worst,
              oracle="cirq.unitary of the translated circuit (float) vs numpy exp(-itH); tolerance 1e-9")
 
